@@ -46,6 +46,9 @@ func (g *FuncGen) strLit(s string) string {
 	if len(s) == 1 {
 		g.emit(fmt.Sprintf("(assert (= %s (byte1 %d)))", n, s[0]))
 	}
+	if len(s) == 2 {
+		g.emit(fmt.Sprintf("(assert (= %s (bcat (byte1 %d) (byte1 %d))))", n, s[0], s[1]))
+	}
 	for _, cb := range []byte{0, 9, 10, 32, 47, 60, 62} {
 		if strings.IndexByte(s, cb) < 0 {
 			g.emit(fmt.Sprintf("(assert (noByte %s %d))", n, cb))
